@@ -294,10 +294,13 @@ def expected_error(case: dict) -> Optional[str]:
     (an input outside the constructor's documented domain); None = a DFA must be returned."""
     c = case["ctor"]
     sy = set(case["syms"])
+    # a pattern symbol outside the alphabet ends up as a key of the transition table: the
+    # validation layer rejects it (InvalidSymbolError, or MissingSymbolError when the foreign key
+    # makes a row look complete) — any library exception is an announced rejection here
     if c in ("from_prefix", "from_subsequence") and not set(case["pattern"]) <= sy:
-        return "InvalidSymbolError"
+        return "LIB"
     if c == "from_finite_language" and not all(set(w) <= sy for w in case["language"]):
-        return "InvalidSymbolError"
+        return "LIB"
     if c == "count_mod":
         if case["k"] <= 0:
             return "ValueError"
@@ -427,7 +430,7 @@ def evaluate_property(ctx: Ctx, case: dict, res, bound: int) -> List[Tuple[str, 
     exp_err = expected_error(case)
     if res[0] == "err":
         name, is_lib = res[1], res[2]
-        if exp_err is not None and name == exp_err:
+        if exp_err is not None and (name == exp_err or (exp_err == "LIB" and is_lib)):
             return fails
         key = None
         if (c == "from_suffix" or (c == "from_substring" and case["must_be_suffix"])) \
@@ -547,6 +550,12 @@ def check_case(ctx: Ctx, case: dict, origin: str, bound: Optional[int] = None) -
         ctx.sample(dict(call=describe(rcase), result=(repr(res[1]) if res[0] == "ok" else res[1])[:400],
                         model_line=line, model_answer_equal=same))
     for what, key in fails:
+        if key is not None:
+            # an open finding: report the first few hits only (Ctx keeps a bounded list of failures
+            # and failures of *other* kinds must never be crowded out), count the rest
+            ctx.stat("finding_hit:" + key)
+            if ctx.stats["finding_hit:" + key] > 3:
+                continue
         ctx.prop_fail(f"{describe(rcase)}: {what}", dict(case=rcase, what=what), key)
     if not same and not fails:
         ctx.corr_diff(c, rcase, impl_view, mod)
